@@ -79,7 +79,7 @@ def injections(doc, ver):
     return out
 
 
-CONTROLS = ["none", "open-vocab-outside", "unregistered-extension-definition"]
+CONTROLS = ["none", "open-vocab-outside", "unregistered-extension-definition", "spec-property-via-custom_properties"]
 
 
 def control_edit(doc, ver, which):
@@ -90,6 +90,14 @@ def control_edit(doc, ver, which):
             if d["kind"] == "open-vocab" and p[-1] != "pattern_type":
                 return {"path": list(p), "op": "set", "kind": "control:open-vocab", "value": "not-in-the-vocabulary"}
         return None
+    if which == "spec-property-via-custom_properties":
+        # the custom_properties= constructor keyword given nothing but properties the type defines: nothing custom results
+        names = [k for k in doc if k in m.props(cname) and k not in ("type", "id", "spec_version", "extensions", "granular_markings")]
+        if not names or doc["type"] == "marking-definition":
+            return None
+        name = names[len(json.dumps(doc, sort_keys=True)) % len(names)]
+        return {"path": ["custom_properties"], "op": "add", "kind": "control:spec-property-via-custom_properties", "value": {name: doc[name]},
+                "also_del": [name]}
     if which == "unregistered-extension-definition":
         if ver != "2.1" or "extensions" not in m.props(cname) or doc["type"] == "marking-definition":
             return None
@@ -256,6 +264,8 @@ def check_case(case):
     kind = edit["kind"] if edit else "control:none"
     is_control = kind.startswith("control:")
     site = kind.split(":")[0] + (":" + kind.split(":")[1] if kind.count(":") and not is_control else "")
+    if kind == "control:spec-property-via-custom_properties" and entry != "constructor":
+        return None      # `custom_properties` is a keyword of the constructors; in a parsed document it is just an unknown key
     if kind == "custom_properties-key" and entry == "constructor":
         return fails   # the custom_properties= constructor keyword is the documented way to request custom properties
     if not allow:
@@ -333,7 +343,9 @@ def run(ctx):
         edits = injections(doc, ver)
         controls = [None] + [e for e in (control_edit(doc, ver, w) for w in CONTROLS[1:]) if e]
         k = 0
-        for edit in edits + controls:
+        for n, edit in enumerate(edits + controls):
+            if edit and edit["op"] == "add" and (seed_i + n) % 2:
+                edit = dict(edit, first=True)       # listed before the members the dictionary already had
             for allow in (False, True):
                 # every entry point for strict; two drawn-by-rotation entry points for permissive
                 ents = entries if not allow else [entries[(seed_i + k) % len(entries)], entries[(seed_i + k + 1) % len(entries)]]
@@ -348,7 +360,7 @@ def run(ctx):
                     kind = edit["kind"] if edit else "control:none"
                     fp = core.fingerprint([ver, doc["type"], kind, entry, allow])
                     deep = kind.startswith("control:") or (edit is not None and len(edit["path"]) > 1)
-                    ctx.note(case, deep, ["site:" + kind.split(":")[0], "entry:" + entry, "allow_custom:%s" % allow], fp=fp)
+                    ctx.note(case, deep, ["site:" + kind.split(":")[0], "entry:" + entry, "allow_custom:%s" % allow] + (["position:listed-first"] if edit and edit.get("first") else []), fp=fp)
                     ctx.keep(case, (ver, doc["type"], kind.split(":")[0], allow), per_group=1, limit=3000)
                     ctx.handle(case, fails)
 
